@@ -81,6 +81,18 @@ func init() {
 			return fmt.Sprintf("%x", all), nil
 		}},
 	)
+	// the same while ANOTHER assembler (another connection of the server) holds the first part of a long frame: assemblers are
+	// independent, so the result is that of an assembler on its own
+	entries = append(entries, entry{Name: "ModbusTCPAssembler.ReceiveRead(while another assembler holds half a frame)", Framing: spec.TCP, Request: true, SameAs: "ModbusTCPAssembler.ReceiveRead",
+		Fn: func(d []byte) (interface{}, error) {
+			long := spec.EncodeRequest(spec.TCP, spec.Req{FC: 16, Unit: 2, Tx: 77, Addr: 5, Qty: 20, ByteCount: 40, Payload: make([]byte, 40)})
+			other := &server.ModbusTCPAssembler{Handler: fixedHandler{}}
+			_, _ = other.ReceiveRead(context.Background(), append([]byte(nil), long[:20]...), 20)
+			a := &server.ModbusTCPAssembler{Handler: fixedHandler{}}
+			out, closeConn := a.ReceiveRead(context.Background(), d, len(d))
+			_, _ = other.ReceiveRead(context.Background(), append([]byte(nil), long[20:]...), len(long)-20)
+			return fmt.Sprintf("%x close=%v", out, closeConn), nil
+		}})
 	// the same on an assembler that has been in use for a long time (one server connection that has handled hundreds of requests,
 	// whole and two per read): what it makes of the input must be what a fresh assembler makes of it
 	for _, age := range []int{300, 700, 1100} {
